@@ -10,24 +10,34 @@ TRUST = ("Lean kernel; axioms ⊆ {propext, Classical.choice, Quot.sound} (audit
 
 CHECKS = {
     'C01': dict(
-        text=("Lean theorems: the structural round trip fromdict(cls, json(asdict(x))) = x for every instance of every model over "
-              "int / float / str / bool / Decimal / Path / UUID / date / time / datetime (named StdLaws) / Optional / list / "
-              "dict[str, .] / plain dataclasses nested to any depth (induction over the conformance derivation, chaining the "
-              "generated dump field loop into the load key loop and the constructor step); leaf inverses and the Z rewrite over all "
-              "strings. Outside the fragment (aliases, key transforms, skip rules, tags, sets / tuples / NamedTuple / TypedDict, "
-              "timedelta, Enum) the round trip is carried by the oracle: model of dump + load tied to the code by type-directed "
-              "correspondence; round trip through dict, JSON text, list, YAML, TOML and JSON-file mixins"),
+        text=('Lean theorems: the structural round trip fromdict(cls, json(asdict(x))) = x below any travelling config for every '
+              'instance of every model over int / float / str / bool / Decimal / Path / UUID / date / time / datetime / non-negative '
+              'timedelta (named StdLaws) / Enum / Literal / Optional / list / deque / set / frozenset / variadic and fixed tuples / '
+              'NamedTuple / dict, defaultdict, OrderedDict [str, .] / Unions of tagged dataclasses and None / dataclasses, tagged or '
+              'not, with any Meta whose effective settings have no skip rule or TIMESTAMP mode and whose dump keys (incl. all=True '
+              'aliases) resolve back, nested to any depth (induction over the conformance derivation, chaining the generated dump '
+              'field loop and the tag entry into the load key loop and the constructor step; the Union case finds the tag and '
+              "dispatches); the key-spelling condition is itself a theorem on the property's name class for every "
+              'key_transform_with_dump (C01_every_dump_transform, through the casing round trips of C08); leaf inverses and the Z '
+              'rewrite over all strings. Outside the fragment (skip rules, catch-all, TypedDict, non-str dict keys, Unions with non- '
+              'dataclass members, negative timedelta) the round trip is carried by the oracle: model of dump + load tied to the code '
+              'by type-directed correspondence; round trip through dict, JSON text, list, YAML, TOML and JSON-file mixins, incl. '
+              'tagged-config families with stand-alone-first histories; directed reproductions of the recorded findings '),
         technique='Lean 4 proof over a hand model + differential correspondence + round-trip oracle', ref='4 C01'),
     'C02': dict(
-        text=("Lean theorems over a semantic model of the v1 loader: the structural round trip fromdict(cls, json(asdict(x))) = x for "
-              "every instance of every model over int / float / str / bool / Decimal / Path / UUID / date / time / datetime (named "
-              "StdLaws) / Optional / list / dict[str, .] / plain dataclasses nested to any depth below a main class with v1 = True, "
-              "v1_key_case = CAMEL (induction over the conformance derivation: shape of the dumped dict, the generated field loop finds "
-              "every field, finish step); leaf inverses incl. bytes / bytearray (base64), consistency of every (v1_key_case, dump "
-              "transform) pair, AUTO tries the own name first, witness of the recorded Union finding. Outside the fragment the round "
-              "trip is carried by the oracle: model tied to the code by round-trip + load correspondence over the v1 grammar incl. "
-              "reversed-Union fields; generator failures are detected by the correspondence (loader generation is part of every case), "
-              "not proved absent"),
+        text=('Lean theorems over a semantic model of the v1 loader: the structural round trip fromdict(cls, json(asdict(x))) = x '
+              'below a main class whose v1 Meta makes the load key case match the dump transform (RTV1.Setup; instances CAMEL with '
+              'the default dump transform, keys as they are, AUTO, KEBAB / LISP, SNAKE, PASCAL; C02_key_cases reduces the class '
+              'condition to a syntactic one on the field names) for every instance of every model over the scalar kinds incl. bytes / '
+              'bytearray (base64) and Literal, Optional, list / deque / set / frozenset, variadic and fixed tuples incl. nested ones '
+              '(the generated v1[k] indexing), NamedTuple, dict / defaultdict / OrderedDict [str, .], Unions holding a tagged '
+              'dataclass next to any other members, and dataclasses whose only customisation is a tag, nested to any depth (induction '
+              'over the conformance derivation: shape of the dumped dict, the generated field loop finds every field, finish step, '
+              'tag dispatch); consistency of every (v1_key_case, dump transform) pair, AUTO tries the own name first, witness of the '
+              'recorded Union finding. Outside the fragment the round trip is carried by the oracle: model tied to the code by round- '
+              'trip + load correspondence over the v1 grammar incl. reversed-Union fields, histories over several main classes '
+              'sharing nested classes and transparent spellings (PEP 695 aliases, Annotated, Required / NotRequired); generator '
+              'failures are detected by the correspondence (loader generation is part of every case), not proved absent '),
         technique='Lean 4 proof over a hand (semantic) model + differential correspondence + round-trip oracle', ref='4 C02'),
     'C03': dict(
         text=("Lean theorems: the isinstance scan over the registration table (regenerated from source) reaches the documented "
@@ -47,14 +57,19 @@ CHECKS = {
               "fuzz of environment strings, splitting functions compared directly"),
         technique='Lean 4 proof over hand models of three engines + generated table + differential correspondence', ref='4 C04'),
     'C05': dict(
-        text=("Lean theorems: soundness of the default-engine loader for every type built from the scalar kinds, Any, Optional, list / "
-              "set / frozenset / deque, variadic tuples, dict-like types and dataclasses nested to any depth, for EVERY JSON input "
-              "(nan / inf / huge / junk / wrong containers) and any travelling config: the result is an instance of the annotation "
-              "(exact container kinds, declared fields in order holding loaded values, the catch-all dictionary or declared defaults) "
-              "- induction over the type through the key loop, junk inputs and the constructor step; scalar soundness by case analysis; "
-              "no load hook writes its arguments (ast effect summaries regenerated each run); witnesses of the two recorded findings "
-              "and of the repaired Union defect. Union, fixed-length tuples, NamedTuple / TypedDict are covered by the oracle: model "
-              "tied to the code on a malformed + near-miss stream; conforms() / input-mutation oracle"),
+        text=('Lean theorems for BOTH engines (C05_sound / C05_fromdict_sound, C05_v1_sound / C05_v1_fromdict_sound): for every type '
+              'built from the scalar kinds (v1: incl. bytes / bytearray; Literal by == and type), Any, Optional, list / set / '
+              'frozenset / deque, variadic tuples, fixed tuples (default engine: members that do not accept None, then the count is '
+              'exact; v1: all), dict-like types, TypedDict, Unions (default: both phases of the Union parser; v1: tag dispatch, '
+              'exact-type fast path, try-parse, coercion pass) and dataclasses nested to any depth, for EVERY JSON input (nan / inf / '
+              'huge / junk / wrong containers) and any travelling config: the result is an instance of the annotation (exact '
+              'container kinds, exact tuple length, declared fields in order holding loaded values, the catch-all dictionary or '
+              'declared defaults; a Union result sound for one declared member) - induction over the type through the key loop / '
+              'generated field loop, junk inputs and the constructor step; scalar soundness by case analysis; no load hook writes its '
+              'arguments (ast effect summaries regenerated each run); witnesses of the two recorded findings and of the repaired '
+              'Union defect. NamedTuple, fixed tuples with None-accepting members and the None annotation are covered by the oracle: '
+              'models tied to the code on malformed + near-miss streams on both engines; exact-type conforms() (user subclasses, mix- '
+              'in Enums, shared Patterns) / input-mutation oracle; directed reproductions of the recorded findings '),
         technique='Lean 4 proof over a hand model + effect summaries + differential correspondence', ref='4 C05'),
     'C09': dict(
         text=('Lean theorems for both engines: exact MissingFields list (class + exactly the absent required constructor fields, in declaration order for v1), init=False never demanded, defaulted never missing, on success every field holds the last supplied value or its default, kwargs contain constructor fields only (v1), a nested failure passes unchanged; models tied to the code by exhaustive key-subset correspondence (power sets) on default and v1 classes'),
@@ -72,7 +87,7 @@ CHECKS = {
         text=("Lean theorems for both engines: merge specification (own setting wins, else root's) for every modelled mergeable setting, special attributes never inherited, recursive=False hands nothing down, the travelling config passes unchanged through every container and nested instance on dump and load; v1: a class two levels down is configured with merge(own, root) and its loader contains no mention of the intermediate class's Meta; attribute sets regenerated from AbstractMeta; models tied to the code over the settings lattice x shapes x binding styles, 2- and 3-level v1 nestings with 6 link shapes"),
         technique='Lean 4 proof over hand models + generated attribute sets + differential correspondence', ref='4 C12'),
     'C13': dict(
-        text=("Lean theorems for both engines: a dict whose tag key holds K's tag is loaded by K's loader for every position of K in the Union and any other members (dispatch on the tag alone); unassigned / missing tags give ParseError; the tag key is known (never unknown, never captured), also when an init=False attribute mirrors it (v1); dump appends the tag under the configured key; models tied to the code over families, tag keys, argument rotations, container positions, load-before-any-dump streams on both engines"),
+        text=("Lean theorems for both engines: a dict whose tag key holds K's tag is loaded by K's loader for every position of K in the Union and any other members (dispatch on the tag alone); dump-then-load through the Union gives back the member instance for every member of the round-trip fragment on both engines (C13_roundtrip_tagged, C13_v1_roundtrip_tagged); unassigned / missing tags give ParseError; the tag key is known (never unknown, never captured), also when an init=False attribute mirrors it (v1); dump appends the tag under the configured key; models tied to the code over families, tag keys, argument rotations, container positions, load-before-any-dump streams on both engines"),
         technique='Lean 4 proof over hand models of both engines + differential correspondence', ref='4 C13'),
     'C14': dict(
         text=('Lean theorems: every failing load of a v1 class - any JSON input, any field loaders - ends in a library error (induction over the field list + constructor step, finish step, nested classes), innermost attribution kept, inner errors pass, error lattice regenerated from errors.py; model tied to the code on malformed streams comparing (type, class_name, field_name / missing / unknown); oracle: isinstance JSONWizardError, str(e) returns (incl. missing AliasPath keys in nested classes), independent path-based attribution for scalar positions'),
@@ -133,8 +148,9 @@ CHECKS = {
     'C06': dict(
         text=("Lean theorems about both sides of the per-class state that survives a call. Load side: for any class, Meta, "
               "per-field loaders and ANY sequence of earlier documents, every call of the generated loader with the key cache "
-              "returns what it returns in a fresh process (cache invariant by induction over the history; witness of the repaired "
-              "negative-cache defect). Dump side: cache state machine (per-class key cache + dumper attributes): the first use of a "
+              "returns what it returns in a fresh process (cache invariant by induction over the history), also when the calls go "
+              "through functions generated for the class under different unknown-key policies that share the cache "
+              "(C06_load_history_independent_across_policies, after repairs 7fd7207 / ade1ea0). Dump side: cache state machine (per-class key cache + dumper attributes): the first use of a "
               "freshly defined family shows the specification, repeating a dump never changes it, operations on disjoint families "
               "in between do not matter (induction over arbitrary operation lists); the machine reproduces the recorded leak. Tie: "
               "fingerprint correspondence on forked histories; oracle: every position of a history re-run alone in a pristine "
